@@ -93,6 +93,11 @@ class Shadow:
         """list-or-tensor argument of a foreach op -> its representative cell / scalar"""
         if isinstance(x, ListRep):
             return x.elem
+        if isinstance(x, (list, tuple)) and x and all(isinstance(v, (Cell, Rat, int, float, Fraction)) and not isinstance(v, bool) for v in x):
+            # a python list filled by `append` in the (one symbolic) iteration of a loop: its elements all have the loop body's value
+            first = self.rat(x[0])
+            if all(self.rat(v) == first for v in x[1:]):
+                return x[0]
         return x
 
     # ------------------------------------------------------------------ running a function
@@ -202,6 +207,12 @@ class Shadow:
             d = self.decide(t, self)
             if d is not None:
                 return d
+        if "len(" in ast.unparse(t):
+            from .astutil import emptiness_normal
+
+            t2 = emptiness_normal(t)  # the lists of the shadow state are tuples / lists: `len(xs) != 0` is `xs`
+            if ast.unparse(t2) != ast.unparse(t):
+                return self.truth(t2, fr, fi)
         if isinstance(t, ast.BoolOp):
             vals = [self.truth(v, fr, fi) for v in t.values] if isinstance(t.op, ast.And) else None
             if isinstance(t.op, ast.And):
@@ -459,6 +470,25 @@ class Shadow:
             return Cell(Rat.app(self.atoms, "tensordot", (self.rat(a[0]), self.rat(a[1]))))
         if name in ("torch.autograd.profiler.record_function",):
             return None
+        if name in ("torch.add", "torch.sub", "torch.subtract", "torch.mul", "torch.multiply", "torch.div", "torch.divide", "torch.true_divide", "torch.neg", "torch.negative", "torch.pow", "torch.sqrt", "torch.square") and not any(k.arg == "out" for k in e.keywords):
+            # the function twins of the element-wise operators are the operators
+            a = [self.rat(x) for x in args()]
+            op = name.split(".")[1]
+            if op in ("add",):
+                return Cell(a[0] + self.rat(kw("alpha", 1)) * a[1])
+            if op in ("sub", "subtract"):
+                return Cell(a[0] - self.rat(kw("alpha", 1)) * a[1])
+            if op in ("mul", "multiply"):
+                return Cell(a[0] * a[1])
+            if op in ("div", "divide", "true_divide"):
+                return Cell(a[0] / a[1])
+            if op in ("neg", "negative"):
+                return Cell(-a[0])
+            if op == "pow":
+                return Cell(a[0] ** a[1])
+            if op == "sqrt":
+                return Cell(a[0].sqrt())
+            return Cell(a[0] * a[0])
         if name.startswith("torch.") and not name.startswith(("torch.distributed", "torch.backends", "torch.cuda")):
             # any other torch function: an uninterpreted function of its tensor / scalar arguments (keyword values included)
             vals = []
